@@ -328,16 +328,18 @@ func ruleO3(c *Ctx) {
 			continue
 		}
 		var lenIf *ssa.If
+		okOnTrue := false // does the true edge of lenIf mean "no errors"?
 		eachInstr(fn, func(in ssa.Instruction) {
 			ifi, ok := in.(*ssa.If)
 			if !ok {
 				return
 			}
-			if b, ok := ifi.Cond.(*ssa.BinOp); ok && (b.Op == token.GTR || b.Op == token.NEQ) {
+			if b, ok := ifi.Cond.(*ssa.BinOp); ok && (b.Op == token.GTR || b.Op == token.NEQ || b.Op == token.EQL) {
 				if call, ok := b.X.(*ssa.Call); ok {
 					if bi, ok := call.Call.Value.(*ssa.Builtin); ok && bi.Name() == "len" && derivesFromField(call.Call.Args[0], "resolve.resolver", "errors") {
 						if k, isK := constInt(b.Y); isK && k == 0 {
 							lenIf = ifi
+							okOnTrue = b.Op == token.EQL
 						}
 					}
 				}
@@ -358,7 +360,7 @@ func ruleO3(c *Ctx) {
 				// success return must be on the false edge
 				okEdge := false
 				for _, pc := range pathConds(r.Block()) {
-					if pc.If == lenIf && !pc.Branch {
+					if pc.If == lenIf && pc.Branch == okOnTrue {
 						okEdge = true
 					}
 				}
@@ -390,10 +392,10 @@ func isFreshResolverInit(st *ssa.Store) bool {
 // guard at least one static error. The facts are gathered from conditions that
 // dominate errorf calls, looking through bool-returning helpers of the package.
 var o4Required = map[string]string{
-	"resolver.loops":    "break/continue outside a loop, load inside a loop",
-	"resolver.ifstmts":  "load inside a conditional",
-	"block.function":    "return / if / for / while / load placement relative to functions",
-	"resolver.options":  "dialect options (detailed per option by O5)",
+	"resolver.loops":   "break/continue outside a loop, load inside a loop",
+	"resolver.ifstmts": "load inside a conditional",
+	"block.function":   "return / if / for / while / load placement relative to functions",
+	"resolver.options": "dialect options (detailed per option by O5)",
 }
 
 func fieldsRead(v ssa.Value, depth int, seen map[ssa.Value]bool, out map[string]bool) {
